@@ -25,6 +25,7 @@ import (
 	"os"
 	"path/filepath"
 	"strings"
+	"sync"
 	"sync/atomic"
 	"time"
 
@@ -104,13 +105,17 @@ func init() {
 		}
 		// an upstream that takes its time: a download sent in pieces over a second, an upload read to its end
 		var slowUploadBytes atomic.Int64
+		dlStarted, ulStarted := make(chan struct{}), make(chan struct{})
+		var dlOnce, ulOnce sync.Once
 		slowSrv := httptest.NewServer(http.HandlerFunc(func(w http.ResponseWriter, r *http.Request) {
 			if r.Method == "POST" {
+				ulOnce.Do(func() { close(ulStarted) })
 				n, _ := io.Copy(io.Discard, r.Body)
 				slowUploadBytes.Store(n)
 				fmt.Fprintf(w, "received %d", n)
 				return
 			}
+			dlOnce.Do(func() { close(dlStarted) })
 			w.Header().Set("Content-Length", "10240")
 			w.WriteHeader(200)
 			for i := 0; i < 10; i++ {
@@ -342,9 +347,23 @@ func init() {
 					resp.Body.Close()
 					ulc <- dl{int(slowUploadBytes.Load()), resp.StatusCode, nil}
 				}()
-				time.Sleep(350 * time.Millisecond) // both exchanges are under way
+				// both exchanges are under way (the upstream has seen both requests) before the proxy is told to stop
+				under := true
+				for _, ch := range []chan struct{}{dlStarted, ulStarted} {
+					select {
+					case <-ch:
+					case <-time.After(15 * time.Second):
+						under = false
+					}
+				}
+				time.Sleep(150 * time.Millisecond)
 				stopServer()
 				d, up := <-dlc, <-ulc
+				if !under {
+					c.violation("HARNESS", "realserver: the slow exchanges did not reach the upstream within 15 s", nil)
+					e.close()
+					continue
+				}
 				c.casen("real|http|stop-in-flight", fmt.Sprintf("%d/%d %d/%d", d.status, d.n, up.status, up.n))
 				c.count("c17:stopped-with-exchanges-in-flight")
 				if d.err != nil || d.status != 200 || d.n != 10240 {
